@@ -180,11 +180,13 @@ class C12(Check):
         kinds = ['gauss', 'uniform', 'int', 'constant', 'alternating', 'outlier', 'small_ints', 'plateau', 'lattice', 'np_int64', 'np_int32', 'outlier_first', 'sorted_heavy']
         offsets = [0.0, 1.0, -1.0, 1e3, 1e6, -1e6, 1e9]
         scales = [1e-8, 1e-3, 1.0, 1.0, 1e3, 1e8]
-        ns = [0, 1, 2, 3, 10, 100, 100, 1000, 100, 2500] if tier == 'quick' else [0, 1, 2, 3, 10, 100, 1000, 1000, 2500, 10000]
+        ns = [0, 1, 2, 3, 10, 100, 1100, 1000, 100, 2500] if tier == 'quick' else [0, 1, 2, 3, 10, 100, 1000, 1000, 2500, 10000]
         modes = ['plain', 'mux', 'group']
         for k in range(ncases):
             op = OPS[k % len(OPS)]
             n = ns[(k // len(OPS)) % len(ns)]
+            if n == 1100 and op not in ('fvariance', 'fstddev'):
+                n = 100         # (the 1100-item slot is for the formal operators: just beyond the 1000 items their documentation names)
             mode = modes[(k // 3) % 3] if k % 5 else modes[k % 3]
             yield {'op': op, 'mode': mode, 'km': (k // 7) % 3 == 0,
                    'data': {'kind': rng.choice(kinds), 'n': n, 'offset': rng.choice(offsets), 'scale': rng.choice(scales),
